@@ -1,4 +1,102 @@
-import KfacVerif.Model.Alg
+/-
+C15 — layer helpers keep factors, gradients and weights in one consistent layout.
+Index-level theorems about KV.Alg (patches / featIdx / getGrad / setGrad / factor shapes), for all
+channel counts, rectangular kernels, strides, zero paddings, input sizes (divisible or not), bias
+on/off.  The executable definitions are compared exactly with the real helpers on integer data.
+Property theorems only; helpers in Lemmas/AlgLayout.lean.
+-/
+import KfacVerif.Lemmas.AlgLayout
+
 namespace KV.C15
-theorem placeholder : (1:Nat) = 1 := rfl
+open KV KV.Alg
+
+/-- the (channel, kernel row, kernel column) ↔ feature index map is a bijection onto
+    `0 … cin·kh·kw - 1`, channel-major then kernel row then kernel column -/
+theorem feature_index_decode (cv : Conv) {c i j : Nat} (hi : i < cv.kh) (hj : j < cv.kw) :
+    featC cv (featIdx cv c i j) = c ∧ featI cv (featIdx cv c i j) = i ∧ featJ cv (featIdx cv c i j) = j := by
+  exact ⟨featC_featIdx cv hi hj, featI_featIdx cv hi hj, featJ_featIdx cv hj⟩
+
+theorem feature_index_encode (cv : Conv) (hkh : 0 < cv.kh) (hkw : 0 < cv.kw) (f : Nat) :
+    featIdx cv (featC cv f) (featI cv f) (featJ cv f) = f ∧ featI cv f < cv.kh ∧ featJ cv f < cv.kw := by
+  exact ⟨featIdx_decode cv f, featI_lt cv hkh hkw f, Nat.mod_lt _ hkw⟩
+
+theorem feature_index_lt (cv : Conv) {c i j : Nat} (hc : c < cv.cin) (hi : i < cv.kh) (hj : j < cv.kw) :
+    featIdx cv c i j < cv.cin * cv.kh * cv.kw := by
+  exact featIdx_lt cv hc hi hj
+
+/-- **padding order**: height is padded by `ph` (= `padding[0]`), width by `pw` (= `padding[1]`);
+    everything outside the input is zero -/
+theorem pad_order (cv : Conv) (x : List (List (List (List Rat)))) (b c h w : Nat) :
+    padded x cv b c h w =
+      if h < cv.ph ∨ w < cv.pw then 0
+      else ((((x.getD b []).getD c []).getD (h - cv.ph) []).getD (w - cv.pw) 0) := by
+  simp [padded]
+
+/-- **patch extraction**: one row per (sample, output row, output column) in that order, one column
+    per feature; entry = the padded input at `(c, oh·s_h + i, ow·s_w + j)` -/
+theorem patches_shape (cv : Conv) (H W : Nat) (x : List (List (List (List Rat)))) :
+    (patches cv H W x).length = x.length * outDim H cv.kh cv.sh cv.ph * outDim W cv.kw cv.sw cv.pw ∧
+    ∀ r ∈ patches cv H W x, r.length = cv.cin * cv.kh * cv.kw := by
+  exact ⟨patches_length cv H W x, patches_row_length cv H W x⟩
+
+theorem patches_entry (cv : Conv) (H W : Nat) (x : List (List (List (List Rat)))) {b y z c i j : Nat}
+    (hb : b < x.length) (hy : y < outDim H cv.kh cv.sh cv.ph) (hz : z < outDim W cv.kw cv.sw cv.pw)
+    (hc : c < cv.cin) (hi : i < cv.kh) (hj : j < cv.kw) :
+    ent (patches cv H W x)
+        ((b * outDim H cv.kh cv.sh cv.ph + y) * outDim W cv.kw cv.sw cv.pw + z) (featIdx cv c i j)
+      = padded x cv b c (y * cv.sh + i) (z * cv.sw + j) := by
+  exact patches_ent cv H W x hb hy hz hc hi hj
+
+/-- **combined gradient layout**: one row per output unit; columns = the weight row, bias last -/
+theorem getGrad_layout (w : Mat) (b : List Rat) (hb : b.length = w.length) {o : Nat} (ho : o < w.length) :
+    (getGrad w (some b)).getD o [] = w.getD o [] ++ [b.getD o 0] ∧ (getGrad w none).getD o [] = w.getD o [] := by
+  exact ⟨getGrad_some_getD w b hb ho, rfl⟩
+
+/-- the weight gradient of a cross-correlation, as an index formula:
+    `dW[o][c][i][j] = Σ_{b,y,z} g[b][o][y][z] · xpad[b][c][y·s_h+i][z·s_w+j]` -/
+def convWeightGrad (cv : Conv) (N oh ow : Nat) (g : Nat → Nat → Nat → Nat → Rat)
+    (x : List (List (List (List Rat)))) (o c i j : Nat) : Rat :=
+  sumTo N fun b => sumTo oh fun y => sumTo ow fun z =>
+    g b o y z * padded x cv b c (y * cv.sh + i) (z * cv.sw + j)
+
+/-- **the combined gradient is the sum over samples and positions of the outer product of
+    output-gradient rows and input-patch rows**: entry `(o, featIdx c i j)` of `Σ_rows gRow ⊗ patchRow`
+    is the cross-correlation weight gradient `dW[o][c][i][j]` -/
+theorem grad_is_sum_of_outer (cv : Conv) (H W : Nat) (x : List (List (List (List Rat))))
+    (g : Nat → Nat → Nat → Nat → Rat) {o c i j : Nat} (hc : c < cv.cin) (hi : i < cv.kh) (hj : j < cv.kw) :
+    let oh := outDim H cv.kh cv.sh cv.ph
+    let ow := outDim W cv.kw cv.sw cv.pw
+    (sumTo (x.length * oh * ow) fun r =>
+        g (r / (oh * ow)) o ((r / ow) % oh) (r % ow) * ent (patches cv H W x) r (featIdx cv c i j))
+      = convWeightGrad cv x.length oh ow g x o c i j := by
+  intro oh ow
+  rw [convWeightGrad, Nat.mul_assoc, sumTo_mul']
+  refine sumTo_congr' fun b hb => ?_
+  rw [sumTo_mul']
+  refine sumTo_congr' fun y hy => sumTo_congr' fun z hz => ?_
+  obtain ⟨h1, h2, h3⟩ := row_decode (b := b) hy hz
+  have e : b * (oh * ow) + (y * ow + z) = (b * oh + y) * ow + z := by ring
+  rw [e, h1, h2, h3, patches_ent cv H W x hb hy hz hc hi hj]
+
+/-- **advertised shapes**: the A factor of a convolution is square of side `cin·kh·kw (+1 with bias)`,
+    the G factor square of side `cout`; for a linear layer `in (+1)` and `out` -/
+theorem conv_factor_shapes (cv : Conv) (H W : Nat) (hasBias : Bool) (x : List (List (List (List Rat))))
+    (cout oh ow : Nat) (g : List (List (List (List Rat)))) :
+    let n := cv.cin * cv.kh * cv.kw + (if hasBias then 1 else 0)
+    (convAFactor cv H W hasBias x).length = n ∧ (∀ r ∈ convAFactor cv H W hasBias x, r.length = n) ∧
+    (convGFactor cout oh ow g).length = cout ∧ (∀ r ∈ convGFactor cout oh ow g, r.length = cout) := by
+  exact ⟨cov_length _ _ _, cov_row_length _ _ _, cov_length _ _ _, cov_row_length _ _ _⟩
+
+theorem lin_factor_shapes (rows n : Nat) (hasBias : Bool) (a : Mat) :
+    let k := n + (if hasBias then 1 else 0)
+    (linAFactor rows n hasBias a).length = k ∧ ∀ r ∈ linAFactor rows n hasBias a, r.length = k := by
+  cases hasBias
+  · exact ⟨cov_length _ _ _, cov_row_length _ _ _⟩
+  · exact ⟨cov_length _ _ _, cov_row_length _ _ _⟩
+
+/-- the bias column of ones is appended LAST -/
+theorem bias_column_last (a : Mat) {i : Nat} (hi : i < a.length) :
+    (appendOnes a).getD i [] = a.getD i [] ++ [1] := by
+  exact appendOnes_getD a hi
+
 end KV.C15
